@@ -10,6 +10,10 @@ streams
           reference generator over template trees).  Malformed templates / configurations outside the
           documented grammar carry spec `-` (implementation vs model only, error classes included).
   asis  : the word-limit loop of the pinned code (D12) against the repaired one (corpus only).
+  multi : two or three `Filenames` objects alive in one process (as the page-name and image-name generators of a
+          run are), created at different moments and with the optional constructor arguments omitted whenever they
+          are empty (the way callers write it), driven by an interleaved schedule of bind / call steps:
+          real objects vs Model.runW (a list of independent object states) vs each object's own Spec run.
 """
 import ast as _ast
 import inspect
@@ -31,7 +35,9 @@ LEVEL_TEXT = ('Lean 4 theorems over a line-by-line model of Filenames._newFilena
               'request_refines_spec / issued_name_is_spec_name / history_refines_spec prove that the model run on linearised trees is the reference '
               'generator of the Spec (every issued name is the prescribed one; whole histories agree while no error is reported); the only deviation, '
               'the lifetime pass counter (O3), is characterised exactly (lifetime_budget_deviation, fails_though_fresh_iff, kernel-checked witness). '
-              'The template parser (six regexes) is a '
+              'generators_independent proves, over a process of several objects with arbitrary interleaving of constructions, bindings and calls, '
+              'that each object answers exactly as if run alone (tied to the code by the multi stream, which builds the real objects with the '
+              'constructor defaults). The template parser (six regexes) is a '
               'hand-written lexer validated by differential execution only; the model is tied to the code by differential execution of whole '
               'request histories (exhaustive over a 3-template x 4-binding alphabet to length 5 in the quick tier).')
 LEVEL_NOTE = ('Trusted: Lean kernel (axioms propext, Classical.choice, Quot.sound only), the translator (whitespace table probed from CPython, '
@@ -45,7 +51,8 @@ ASSUMPTIONS = ['template text is ASCII (\\w and \\d of the regexes are modelled 
                'in the spec domain: variables named in a template are pairwise distinct, the caller does not bind `num`, the substitute string contains no forbidden character, widths <= 12',
                'reserved sets are small (<= 8 names), so the lifetime pass counter (observation O3, characterised by fails_though_fresh_iff) never makes a generated request fail early',
                'request histories sampled up to length 12 (theorems cover every length)']
-RULE = ('fname cases inside the spec domain (spec defined) whose history has >= 2 requests and issues at least one name; '
+RULE = ('fname cases inside the spec domain (spec defined) whose history has >= 2 requests and issues at least one name, and multi cases '
+        '(2-3 objects, interleaved schedule) inside the spec domain with >= 2 issued names; '
         'distinct = distinct driver request line')
 EXHAUSTIVE = {'quick': 'fname: 3 templates x all 4^5 sequences over a 4-binding alphabet (length 5, prefixes included in the per-request results)',
               'thorough': 'fname: 3 templates x 2 configurations x all 4^6 sequences over a 4-binding alphabet'}
@@ -197,6 +204,17 @@ def make_case(meta, origin='gen'):
     return Case('fname', ' | '.join(secs), meta, origin)
 
 
+def make_multi(meta, origin='gen'):
+    """meta: gens [fname-like descriptions without reqs], ops [['N', i] | ['B', i, [[k, v]..]] | ['C', i]], style"""
+    secs = [str(len(meta['gens']))]
+    for g in meta['gens']:
+        secs += ['%s %s %s %s' % (enc(g['spec']), enc(g['bad']), enc(g['sub']), enc(g['ext'])),
+                 enc_env(g['vars']), ' '.join(enc(r) for r in g['reserved']), g['ast']]
+    for op in meta['ops']:
+        secs.append('%s %d' % (op[0], op[1]) + (' ' + enc_env(op[2]) if op[0] == 'B' and op[2] else ''))
+    return Case('multi', ' | '.join(secs), meta, origin)
+
+
 # ---------------------------------------------------------------- generation
 
 DEFAULT_BAD = ': #$%^&*!~`"\'=?/{}[]()|<>;\\,.'
@@ -300,7 +318,41 @@ def gen_valid(rng, maxlen=12):
                            'images/img-1.png', 'n1.html', 's3.html'], rng.choice([0, 0, 1, 2, 4, 6]))
     n = rng.choice([1, 2, 3, 4, 5, 6, 8, 10, maxlen])
     reqs = [gen_bindings(rng) for _ in range(n)]
-    return {'spec': spell(tm, rng), 'bad': bad, 'sub': sub, 'ext': ext, 'vars': vars_, 'reserved': reserved, 'ast': ast_words(tm), 'reqs': reqs}
+    style = 'omit' if rng.random() < 0.4 else 'explicit'
+    return {'style': style, 'spec': spell(tm, rng), 'bad': bad, 'sub': sub, 'ext': ext, 'vars': vars_, 'reserved': reserved, 'ast': ast_words(tm), 'reqs': reqs}
+
+
+def gen_multi(rng):
+    """2-3 objects, optional constructor arguments mostly empty (so that the defaults are used), interleaved schedule"""
+    k = rng.choice([2, 2, 3])
+    gens = []
+    for _ in range(k):
+        g = gen_valid(rng, 1)
+        del g['reqs']
+        if rng.random() < 0.6:
+            g['vars'] = []
+        if rng.random() < 0.6:
+            g['reserved'] = []
+        if rng.random() < 0.3:
+            g['bad'], g['sub'] = '', ''
+        gens.append(g)
+    if rng.random() < 0.3:      # the same template on both objects: names may coincide, taken sets must stay apart
+        gens[1] = dict(gens[0])
+    ops, alive, nxt = [['N', 0]], [0], 1
+    for _ in range(rng.randint(5, 16)):
+        r = rng.random()
+        if nxt < k and r < 0.25:
+            ops.append(['N', nxt]); alive.append(nxt); nxt += 1
+        elif r < 0.6:
+            b = gen_bindings(rng) or [['id', rng.choice(VALUES['id'])]]
+            ops.append(['B', rng.choice(alive), b])
+        else:
+            ops.append(['C', rng.choice(alive)])
+    while nxt < k:
+        ops.append(['N', nxt]); ops.append(['C', nxt]); nxt += 1
+    for i in range(k):
+        ops.append(['C', i])
+    return {'gens': gens, 'ops': ops, 'style': 'omit' if rng.random() < 0.8 else 'explicit'}
 
 
 RAW = list('abns') + ['$', '$', '{', '}', '(', ')', '1', '3', '0', ' ', ' ', '\t', ',', ',', ']', '.', '_', 'num', 'id', 'title', '$id', '$num',
@@ -389,6 +441,8 @@ def generate(ctx):
             yield make_case(gen_malformed(rng))
         else:
             yield make_case(gen_valid(rng))
+    for i in range(n // 2):
+        yield make_multi(gen_multi(rng))
     for i in range(n):
         s = gen_parse(rng)
         yield Case('parse', enc(s), {'spec': s})
@@ -427,6 +481,20 @@ def corpus():
     tm = _tm([[('L', 'index')]], ([], [[('V', 'id', None)]], []))
     cs.append(make_case(W('index [$id]', [[], [('id', 'index')], []], ast=ast_words(tm)), 'corpus'))
     cs.append(make_case(W('a$', [[]]), 'corpus'))
+    # two objects created without a namespace: a binding made on one must not be seen by the other
+    def G(spec, tm, ext):
+        return {'spec': spec, 'bad': '', 'sub': '', 'ext': ext, 'vars': [], 'reserved': [], 'ast': ast_words(tm)}
+    pages = G('index [$id, sect$num(2)]', _tm([[('L', 'index')]], ([], [[('V', 'id', None)], [('L', 'sect'), ('V', 'num', '2')]], [])), '.html')
+    images = G('[$id, img$num(2)]', _tm([], ([], [[('V', 'id', None)], [('L', 'img'), ('V', 'num', '2')]], [])), '.png')
+    cs.append(make_multi({'gens': [pages, images], 'style': 'omit',
+                          'ops': [['N', 0], ['N', 1], ['C', 0], ['B', 0, [['id', 'intro']]], ['C', 1], ['C', 0], ['C', 0], ['C', 1]]}, 'corpus'))
+    first = G('[$title(2), part$num]', _tm([], ([], [[('V', 'title', '2')], [('L', 'part'), ('V', 'num', None)]], [])), '.html')
+    second = G('[$title(2), chunk$num]', _tm([], ([], [[('V', 'title', '2')], [('L', 'chunk'), ('V', 'num', None)]], [])), '.html')
+    cs.append(make_multi({'gens': [first, second], 'style': 'omit',
+                          'ops': [['N', 0], ['B', 0, [['title', 'A Long Title']]], ['N', 1], ['C', 0], ['C', 1], ['C', 1], ['C', 0]]}, 'corpus'))
+    # the same template twice: the taken sets are per object
+    cs.append(make_multi({'gens': [images, dict(images)], 'style': 'omit',
+                          'ops': [['N', 0], ['N', 1], ['C', 0], ['C', 1], ['B', 1, [['id', 'x']]], ['C', 1], ['B', 0, [['id', 'x']]], ['C', 0]]}, 'corpus'))
     cs.append(make_case(W('$title(2)-$title', [[('title', 'a b c')]]), 'corpus'))
     cs.append(Case('parse', enc('a$b(2)c ${ x }( 4 ) [ a , b ]z  q'), {'spec': 'a$b(2)c ${ x }( 4 ) [ a , b ]z  q'}, 'corpus'))
     cs.append(Case('parse', enc('p[,a]x [b'), {'spec': 'p[,a]x [b'}, 'corpus'))
@@ -434,6 +502,8 @@ def corpus():
 
 
 def nontrivial(o):
+    if o.case.stream == 'multi':
+        return o.spec not in ('-', '') and o.spec.count('=s') >= 2
     if o.case.stream != 'fname' or o.spec in ('-', ''):
         return False
     rs = o.spec[2:].split()
@@ -472,25 +542,81 @@ def _guarded(f):
         signal.alarm(CASE_TIMEOUT)
 
 
-def run_real(meta):
+def _reset_defaults():
+    """case hygiene: a mutable default argument of the constructor would carry state from one case into the next
+    and make a failure unreplayable; empty such containers before every case (within a case they act as the code says)"""
     from plasTeX.Filenames import Filenames
-    charsub = (meta['bad'], meta['sub']) if (meta['bad'] or meta['sub']) else None
+    fn = Filenames.__init__
+    for d in list(fn.__defaults__ or ()) + list((fn.__kwdefaults__ or {}).values()):
+        if isinstance(d, (dict, list, set)):
+            d.clear()
+
+
+def construct(g, style):
+    """build the real object the way a caller would: `explicit` passes every argument positionally,
+    `omit` leaves out each optional argument whose value is empty (so the constructor's defaults are used)"""
+    from plasTeX.Filenames import Filenames
+    charsub = (g['bad'], g['sub']) if (g['bad'] or g['sub']) else None
+    if style == 'omit':
+        kw = {}
+        if charsub:
+            kw['charsub'] = charsub
+        if g['vars']:
+            kw['variables'] = dict((k, v) for k, v in g['vars'])
+        if g['ext']:
+            kw['extension'] = g['ext']
+        if g['reserved']:
+            kw['invalid'] = dict.fromkeys(g['reserved'])
+        return Filenames(g['spec'], **kw)
+    return Filenames(g['spec'], charsub, dict((k, v) for k, v in g['vars']), g['ext'], dict.fromkeys(g['reserved']))
+
+
+def _call(f):
+    """one guarded call -> (canonical result, stop?)"""
     try:
-        f = Filenames(meta['spec'], charsub, dict((k, v) for k, v in meta['vars']), meta['ext'], dict.fromkeys(meta['reserved']))
+        r = _guarded(f)
+        return ('none' if r is None else (enc(r) if isinstance(r, str) else 'bad:' + type(r).__name__)), False
+    except _Looping:
+        _timeouts[0] += 1
+        return 'err:timeout', True
+    except Exception as e:
+        return canon_exc(e), False
+
+
+def run_real(meta):
+    _reset_defaults()
+    try:
+        f = construct(meta, meta.get('style', 'explicit'))
     except Exception as e:
         return 'ctor-' + canon_exc(e)
     out = []
     for b in meta['reqs']:
         f.variables.update(dict((k, v) for k, v in b))
-        try:
-            r = _guarded(f)
-            out.append('none' if r is None else (enc(r) if isinstance(r, str) else 'bad:' + type(r).__name__))
-        except _Looping:
-            _timeouts[0] += 1
-            out.append('err:timeout')
+        r, stop = _call(f)
+        out.append(r)
+        if stop:
             break
-        except Exception as e:
-            out.append(canon_exc(e))
+    return ' '.join(out)
+
+
+def run_multi(meta):
+    _reset_defaults()
+    objs = {}
+    out = []
+    for op in meta['ops']:
+        i = op[1]
+        if op[0] == 'N':
+            try:
+                objs[i] = construct(meta['gens'][i], meta.get('style', 'omit'))
+            except Exception as e:
+                return 'ctor-' + canon_exc(e)
+        elif op[0] == 'B':
+            objs[i].variables.update(dict((k, v) for k, v in op[2]))
+        else:
+            r, stop = _call(objs[i])
+            out.append('%d=%s' % (i, r))
+            if stop:
+                break
     return ' '.join(out)
 
 
@@ -509,6 +635,8 @@ def show_items(files):
 def impl(case, aux):
     if case.stream == 'fname':
         return 'h:' + run_real(case.meta)
+    if case.stream == 'multi':
+        return 'm:' + run_multi(case.meta)
     if case.stream == 'parse':
         from plasTeX.Filenames import Filenames
         try:
@@ -565,14 +693,41 @@ def _variants(meta):
                     yield dict(meta, bad=c)
 
 
+def _variants_multi(meta):
+    ops, gens = meta['ops'], meta['gens']
+    for i in range(len(ops) - 1, -1, -1):
+        if ops[i][0] != 'N':
+            yield dict(meta, ops=ops[:i] + ops[i + 1:])
+    for i, op in enumerate(ops):
+        if op[0] == 'B':
+            for j in range(len(op[2])):
+                if len(op[2]) > 1:
+                    yield dict(meta, ops=ops[:i] + [['B', op[1], op[2][:j] + op[2][j + 1:]]] + ops[i + 1:])
+    # drop the last object when nothing but its construction refers to it
+    last = len(gens) - 1
+    if last >= 1 and not any(op[1] == last and op[0] != 'N' for op in ops):
+        yield dict(meta, gens=gens[:last], ops=[op for op in ops if op[1] != last])
+    for gi, g in enumerate(gens):
+        for key in ('reserved', 'vars'):
+            if g[key]:
+                yield dict(meta, gens=gens[:gi] + [dict(g, **{key: []})] + gens[gi + 1:])
+        if g['bad']:
+            yield dict(meta, gens=gens[:gi] + [dict(g, bad='', sub='')] + gens[gi + 1:])
+
+
 def shrink(ctx, o, evaluate, pred=None):
-    """greedy: drop requests, bindings, reserved names, initial variables, forbidden characters while the failure stays"""
-    if o.case.stream != 'fname':
+    """greedy: drop requests / schedule steps, bindings, reserved names, initial variables, forbidden characters
+    while the failure stays"""
+    if o.case.stream not in ('fname', 'multi'):
         return o
+    multi = o.case.stream == 'multi'
     pred = pred or (lambda r: not r.prop_ok)
     best = o
-    for _ in range(40):
-        cands = [make_case(m, 'shrink') for m in _variants(best.case.meta)]
+    for _ in range(60):
+        if multi:
+            cands = [make_multi(m, 'shrink') for m in _variants_multi(best.case.meta)]
+        else:
+            cands = [make_case(m, 'shrink') for m in _variants(best.case.meta)]
         if not cands:
             break
         hit = next((r for r in evaluate(cands) if pred(r) and r.model != 'unsupported'), None)
@@ -589,11 +744,12 @@ def search(ctx, evaluate, corr_bad):
     rng = random.Random(ctx.seed + 7919)
     cases = []
     for o in corr_bad[:20]:
-        if o.case.stream == 'fname':
+        if o.case.stream in ('fname', 'multi'):
             s = shrink(ctx, o, evaluate, pred=lambda r: not r.corr_ok)
             cases.append(s.case)
     cases += list(exhaustive('thorough'))[:20000]
     cases += [make_case(gen_valid(rng), 'search') for _ in range(15000)]
+    cases += [make_multi(gen_multi(rng), 'search') for _ in range(5000)]
     bad = [o for o in evaluate(cases) if not o.prop_ok]
     if bad:
         o = shrink(ctx, bad[0], evaluate)
